@@ -49,9 +49,13 @@ type Item struct {
 	D int64 `json:"d,omitempty"`
 	// del: target item index
 	T int `json:"t,omitempty"`
-	// blob: Size bytes drawn from Seed
-	Seed uint64 `json:"seed,omitempty"`
-	Size int    `json:"size,omitempty"`
+	// blob: Size bytes drawn from Seed. Media: "png" = the bytes begin with
+	// the PNG signature (sniffable, not decodable); "jpeg" = a real JPEG with
+	// EXIF data from perkeep's test data; "junkjpeg" = the same behind four
+	// junk bytes (not sniffable: an image only by a file's extension)
+	Seed  uint64 `json:"seed,omitempty"`
+	Size  int    `json:"size,omitempty"`
+	Media string `json:"media,omitempty"`
 	// bytes, file: parts (item indices of blob or bytes items)
 	Parts []int  `json:"parts,omitempty"`
 	Name  string `json:"name,omitempty"`
@@ -265,6 +269,19 @@ func materialise(spec *WorldSpec) (*world, error) {
 			data = idl[it.S].armored
 		case "blob":
 			d := blobData(it.Seed, it.Size)
+			switch it.Media {
+			case "png":
+				copy(d, "\x89PNG\r\n\x1a\n")
+			case "jpeg", "junkjpeg":
+				j, err := os.ReadFile("/repo/pkg/index/indextest/testdata/dude-exif.jpg")
+				if err != nil {
+					return nil, fmt.Errorf("item %d: %w", i, err)
+				}
+				d = j
+				if it.Media == "junkjpeg" {
+					d = append([]byte("junk"), j...)
+				}
+			}
 			data = string(d)
 			mb.Size = int64(len(d))
 		case "bytes", "file":
